@@ -80,10 +80,18 @@ def gen_spec(seed):
                 for i in range(w):
                     free.remove(off + i)
                 t["vars"].append(dict(sm=sm, off=off, size=fmt,
-                                      via=rng.choice(["pdo", "packet"])))
+                                      via=rng.choice(["pdo", "packet",
+                                                      "struct"])))
         if not t["vars"]:
             t["in_sz"] = max(t["in_sz"], 2)
             t["vars"].append(dict(sm="IN", off=0, size="H", via="pdo"))
+        # members of a Struct channel: the channel's input and output
+        # offsets differ where the variables leave room for it
+        for sm in ("IN", "OUT"):
+            offs = [v["off"] for v in t["vars"]
+                    if v["via"] == "struct" and v["sm"] == sm]
+            t["struct_" + sm.lower()] = rng.randint(0, min(offs)) if offs else \
+                rng.randint(0, 5)
         terms.append(t)
     return dict(seed=seed, terminals=terms)
 
@@ -98,7 +106,16 @@ def build(ecm, eth, spec, fast):
     ec = ecm.SimpleEtherCat("verif0")
     terms, links = [], []
     for ti, ts in enumerate(spec["terminals"]):
-        t = ecm.EBPFTerminal(ec)
+        members = {}
+        for vi, v in enumerate(ts["vars"]):
+            if v["via"] == "struct":
+                sm = SM.IN if v["sm"] == "IN" else SM.OUT
+                members[f"m{vi}"] = ecm.PacketDesc(
+                    sm, v["off"] - ts["struct_" + v["sm"].lower()], v["size"])
+        Ch = type("Ch", (ecm.Struct,), members)
+        T = type("T", (ecm.EBPFTerminal,),
+                 dict(ch=Ch(ts["struct_in"], ts["struct_out"], 0)))
+        t = T(ec)
         t.position = 1000 + ti
         t.name = f"t{ti}"
         t.use_fmmu = ts["use_fmmu"]
@@ -111,6 +128,8 @@ def build(ecm, eth, spec, fast):
             if v["via"] == "pdo":
                 t.pdos[0x6000 + vi, 1] = (sm, v["off"], v["size"])
                 pv = ecm.ProcessDesc(0x6000 + vi, 1).__get__(t, type(t))
+            elif v["via"] == "struct":
+                pv = getattr(t.ch, f"m{vi}")
             elif v["via"] == "override":
                 # the PDO map describes a whole byte; the variable is
                 # declared as one bit of it (size given in ProcessDesc)
@@ -572,8 +591,7 @@ def main(tier, replay_file=None):
                             "random offsets, via ProcessDesc or PacketDesc",
                     per_layout="whole frame, map contents, written values and "
                                "frame length symbolic",
-                    outside="Struct members with position offsets; formats "
-                            "other than the integer ones; more than one "
+                    outside="formats other than the integer ones; more than one "
                             "device per group; values >= 2^63 written to Q "
                             "variables on the slow path"),
         stubs=["xdp_md context, array map model (fast path)",
